@@ -680,15 +680,7 @@ func (s *Server) netServe() error {
 				rdbuf := bytes.NewBuffer(packet)
 				pr.rd = rdbuf
 				pr.wr = client
-				msgs, err := func() (msgs []*Message, err error) {
-					defer func() {
-						// malformed input must never take the server down
-						if v := recover(); v != nil {
-							msgs, err = nil, fmt.Errorf("Protocol error: invalid input (%v)", v)
-						}
-					}()
-					return pr.ReadMessages()
-				}()
+				msgs, err := pr.ReadMessages()
 				for _, msg := range msgs {
 					// Just closing connection if we have deprecated HTTP or WS connection,
 					// And --http-transport = false
@@ -1822,8 +1814,19 @@ moreData:
 	}
 	for len(data) > 0 {
 		msg := &Message{}
-		complete, args, kind, leftover, err2 :=
-			readNextCommand(data, nil, msg, rd.wr)
+		complete, args, kind, leftover, err2 := func() (
+			complete bool, args [][]byte, kind redcon.Kind, leftover []byte, err error,
+		) {
+			defer func() {
+				// malformed input must never take the server down: the
+				// commands read so far are answered, then the connection
+				// gets a protocol error and is closed.
+				if v := recover(); v != nil {
+					err = errors.New("Protocol error: invalid input")
+				}
+			}()
+			return readNextCommand(data, nil, msg, rd.wr)
+		}()
 		if err2 != nil {
 			err = err2
 			break
